@@ -4,6 +4,7 @@ import ast
 import copy
 
 from .. import AnalysisError
+from .. import inline as _inline
 from ..callgraph import DIRECT
 from ..flow import Flow
 from ..report import Report
@@ -163,8 +164,9 @@ def endpoints(prog):
 class _Scope:
     """where a condition of _load is evaluated: _load itself or a predicate helper it calls (parameters mapped back)"""
 
-    def __init__(self, prog, func, entry_var, pmap, depth=0):
+    def __init__(self, prog, func, entry_var, pmap, depth=0, amap=None):
         self.prog, self.func, self.entry_var, self.pmap, self.depth = prog, func, entry_var, pmap, depth
+        self.amap = amap or {}  # helper parameter -> the expression of _load it was called with
         self.completed = set()
         if entry_var is not None:
             for n in func.own_nodes():
@@ -194,21 +196,29 @@ class _Scope:
     def status_sub(self, e):
         return self.entry_var is not None and _sub_key(e, lambda x: _is_name(x, self.entry_var)) == 'status'
 
+    def back(self, e):
+        """an expression of a predicate helper in terms of _load: a parameter stands for the argument it was given"""
+        if isinstance(e, ast.Name) and e.id in self.amap:
+            return self.amap[e.id]
+        return e
+
     def enter(self, call, h):
         """scope of a same-module predicate helper called with the entry / window parameters as arguments"""
         b = _bind(call, h)
         if b is None or self.depth >= HELPER_DEPTH:
             return None
-        ev, pmap = None, {}
+        ev, pmap, amap = None, {}, {}
         for hp, a in b.items():
             if isinstance(a, ast.Name):
                 if a.id == self.entry_var:
                     ev = hp
                 elif a.id in self.pmap:
                     pmap[hp] = self.pmap[a.id]
+            amap[hp] = self.back(a)
         stores = {n.id for n in h.own_nodes() if isinstance(n, ast.Name) and isinstance(n.ctx, ast.Store)}
         pmap = {k: v for k, v in pmap.items() if k not in stores}
-        return _Scope(self.prog, h, ev if ev not in stores else None, pmap, self.depth + 1)
+        amap = {k: v for k, v in amap.items() if k not in stores}
+        return _Scope(self.prog, h, ev if ev not in stores else None, pmap, self.depth + 1, amap)
 
 
 def _returned_expr(h):
@@ -219,11 +229,108 @@ def _returned_expr(h):
     return None
 
 
+class _Unfold(ast.NodeTransformer):
+    """a comprehension / generator expression whose elements are collected in a list becomes the loop it abbreviates:
+
+        X.extend(<comp>) | X += <comp> | X = <comp> | return <comp>     (<comp> also wrapped in list(..) / sorted(..)'s
+                                                                         first argument is NOT unfolded: order matters)
+        ==>  [X = []]  for <target> in <iter>: if <cond>: ... X.append(<elt>)
+
+    Elements are produced and appended in the same order, so the rewrite preserves the list; the rules then see the
+    entry loop, the filter conditions (as ``if`` tests) and the append like in the statement form."""
+
+    def __init__(self):
+        self.n = 0
+
+    def visit_FunctionDef(self, node):
+        return node  # nested definitions are not part of the analysed body
+
+    visit_AsyncFunctionDef = visit_FunctionDef
+    visit_Lambda = visit_FunctionDef
+    visit_ClassDef = visit_FunctionDef
+
+    @staticmethod
+    def _comp(e):
+        if isinstance(e, ast.Call) and isinstance(e.func, ast.Name) and e.func.id == 'list' and len(e.args) == 1 and not e.keywords:
+            e = e.args[0]
+        if isinstance(e, (ast.ListComp, ast.GeneratorExp)) and not any(g.is_async for g in e.generators):
+            return e
+        return None
+
+    @staticmethod
+    def _loop(comp, name, at):
+        body = [ast.Expr(value=ast.Call(func=ast.Attribute(value=ast.Name(id=name, ctx=ast.Load()), attr='append', ctx=ast.Load()), args=[comp.elt], keywords=[]))]
+        ast.copy_location(body[0], comp.elt)
+        ast.copy_location(body[0].value, comp.elt)
+        for g in reversed(comp.generators):
+            for c in reversed(g.ifs):
+                body = [ast.copy_location(ast.If(test=c, body=body, orelse=[]), c)]
+            body = [ast.copy_location(ast.For(target=g.target, iter=g.iter, body=body, orelse=[], type_comment=None), g.iter)]
+        for x in body:
+            ast.fix_missing_locations(x)
+        return body[0]
+
+    def _empty(self, name, at):
+        a = ast.Assign(targets=[ast.Name(id=name, ctx=ast.Store())], value=ast.List(elts=[], ctx=ast.Load()))
+        return ast.fix_missing_locations(ast.copy_location(a, at))
+
+    def visit_Expr(self, s):
+        c = s.value
+        if (
+            isinstance(c, ast.Call)
+            and isinstance(c.func, ast.Attribute)
+            and c.func.attr == 'extend'
+            and isinstance(c.func.value, ast.Name)
+            and len(c.args) == 1
+            and not c.keywords
+        ):
+            comp = self._comp(c.args[0])
+            if comp is not None:
+                return self._loop(comp, c.func.value.id, s)
+        return s
+
+    def visit_AugAssign(self, s):
+        comp = self._comp(s.value)
+        if comp is not None and isinstance(s.op, ast.Add) and isinstance(s.target, ast.Name):
+            return self._loop(comp, s.target.id, s)
+        return s
+
+    def visit_Assign(self, s):
+        comp = self._comp(s.value)
+        if comp is not None and len(s.targets) == 1 and isinstance(s.targets[0], ast.Name):
+            name = s.targets[0].id
+            if not any(isinstance(n, ast.Name) and n.id == name for n in ast.walk(comp)):
+                return [self._empty(name, s), self._loop(comp, name, s)]
+        return s
+
+    def visit_Return(self, s):
+        comp = self._comp(s.value) if s.value is not None else None
+        if comp is not None:
+            self.n += 1
+            name = f'collected__{self.n}'
+            ret = ast.copy_location(ast.Return(value=ast.copy_location(ast.Name(id=name, ctx=ast.Load()), s)), s)
+            return [self._empty(name, s), self._loop(comp, name, s), ret]
+        return s
+
+
+def _unfolded(f):
+    """pseudo Func of f with its collecting comprehensions written as loops (f itself when there are none)"""
+    from ..prog import Func
+
+    node = copy.deepcopy(f.node)
+    before = ast.dump(node)
+    _Unfold().generic_visit(node)
+    ast.fix_missing_locations(node)
+    if ast.dump(node) == before:
+        return f
+    return Func(f.qname, node, f.module, f.cls, f.parent)
+
+
 class LoadFacts:
     """window parameters, entry variable, completion-time variables, status comparison and sort of chronicle._load"""
 
     def __init__(self, prog):
-        self.f = f = prog.func(Q_LOAD)
+        self.f = f = _unfolded(prog.func(Q_LOAD))
         self.prog = prog
         self.entry_var = None
 
@@ -283,6 +390,8 @@ class LoadFacts:
                 ret = _returned_expr(h)
                 if sub is not None and ret is not None:
                     return self.atoms(ret, sub)
+                if sub is not None:
+                    return self._pred_summary(h, sub)
             return T, F
         if not isinstance(e, ast.Compare):
             return T, F
@@ -306,10 +415,66 @@ class LoadFacts:
                 for x, y in ((a, b), (b, a)):
                     if sc.status_sub(x):
                         if isinstance(op, ast.Eq):
-                            T.append(('status', norm(y), True))
+                            T.append(('status', norm(sc.back(y)), True))
                         elif single:
-                            F.append(('status', norm(y), True))
+                            F.append(('status', norm(sc.back(y)), True))
         return T, F
+
+    def _pred_summary(self, h, sub):
+        """predicate helper with a body of several statements (guards that return early, boolean locals): the facts that
+        hold on EVERY path returning a true value / on every path returning a false value (falling off the end is None)"""
+        lf = self
+        KINDS = ('lower', 'upper', 'status')
+
+        class P(Flow):
+            def __init__(self):
+                super().__init__()
+                self.T, self.F = [], []
+
+            def on_test(self, e, st):
+                if isinstance(e, ast.Name):
+                    v = sget(st, ('bool', e.id))
+                    if v is not None:
+                        return ((st,), ()) if v == 'T' else ((), (st,))
+                    return (st,), (st,)
+                T, F = lf.atoms(e, sub)
+                return (st | frozenset(T),), (st | frozenset(F),)
+
+            def on_stmt(self, s, st):
+                if isinstance(s, (ast.Assign, ast.AnnAssign, ast.AugAssign)):
+                    for t in s.targets if isinstance(s, ast.Assign) else [s.target]:
+                        for n in ast.walk(t):
+                            if isinstance(n, ast.Name):
+                                v = getattr(s, 'value', None)
+                                known = isinstance(s, ast.Assign) and isinstance(t, ast.Name) and isinstance(v, ast.Constant) and isinstance(v.value, bool)
+                                st = sset(st, ('bool', n.id), ('T' if v.value else 'F') if known else None)
+                return (st,)
+
+            def on_for(self, node, st):
+                for n in ast.walk(node.target):
+                    if isinstance(n, ast.Name):
+                        st = sset(st, ('bool', n.id), None)
+                return (st,)
+
+            def _s_Return(self, s, states):
+                if s.value is None:
+                    self.F.extend(states)
+                else:
+                    t, f = self.cond(s.value, states)
+                    self.T.extend(t)
+                    self.F.extend(f)
+                o = Flow._s_Return(self, ast.copy_location(ast.Return(value=None), s), states)
+                return o
+
+        fl = P()
+        o = fl.run(desugar(h.node), frozenset())
+        fl.F.extend(o.normal)
+
+        def meet(paths):
+            sets = [{x for x in st if x[0] in KINDS} for st in paths]
+            return sorted(set.intersection(*sets), key=str) if sets else []
+
+        return meet(fl.T), meet(fl.F)
 
     def window_params(self):
         """(lower param, upper param) of _load: the parameters the completion time is compared with on the way to the
@@ -1342,16 +1507,18 @@ def _load_status_by_flag(prog, lf, flag):
         def on_test(self, e, st):
             if _is_name(e, flag):
                 return ((st,), ()) if sget(st, 'flag') else ((), (st,))
-            if isinstance(e, ast.Compare):
+            if isinstance(e, (ast.Compare, ast.Call)):
+                # the compared expression is taken from the fact: for a predicate helper it is the helper's parameter
+                # translated back to the argument _load passes
                 T, F = lf.atoms(e)
                 for fact in T + F:
                     if fact[0] == 'status':
-                        other = [x for x in [e.left] + e.comparators if not lf._status_sub(x)]
+                        other = ast.parse(fact[1], mode='eval').body
                         lit = None
-                        if len(other) == 1 and isinstance(other[0], ast.Constant):
-                            lit = other[0].value
-                        elif len(other) == 1 and isinstance(other[0], ast.Name):
-                            lit = sget(st, ('c', other[0].id))
+                        if isinstance(other, ast.Constant):
+                            lit = other.value
+                        elif isinstance(other, ast.Name):
+                            lit = sget(st, ('c', other.id))
                         if lit is None:
                             problems.append(e)
                         else:
@@ -2419,6 +2586,9 @@ def _rule_opaque(ctx, rep):
 
 
 def check(ctx):
+    # sa/inline.py caches normal forms under id(prog): a Program created after an earlier one was freed (variants
+    # analysed one after the other in one process) can get the same id and be served the earlier program's functions
+    _inline._CACHE.clear()
     rep = Report(
         PID,
         ctx.tier,
@@ -2493,6 +2663,15 @@ _LOOP_RENAMED = """cur = before.date()
             entries += _load(after, before, journal, succeeded)
         cur -= oneday"""
 
+_LOAD_LOOP = "def _load(after: datetime, before: datetime, journal: str, succeeded: bool):\n    entries = []\n    status = 'success' if succeeded else 'failure'\n    for fn in filter(lambda fn: fn.endswith('.json'), os.listdir(journal)):\n        jsonfile = os.path.join(journal, fn)\n        with open(jsonfile, 'rt', encoding='utf-8') as file:\n            for entry in json.load(file):\n                completed = datetime.fromisoformat(entry['timing']['completed'])\n                if after < completed < before and entry['status'] == status:\n                    entries.append(entry)\n"
+
+
+def _load_with_helper(cmp, tail):
+    return (
+        "def _in_window(entry, after, before, status):\n    completed = datetime.fromisoformat(entry['timing']['completed'])\n    if not @CMP@:\n        return False\n    @TAIL@\n\n\ndef _load(after: datetime, before: datetime, journal: str, succeeded: bool):\n    entries = []\n    status = 'success' if succeeded else 'failure'\n    for fn in os.listdir(journal):\n        if not fn.endswith('.json'):\n            continue\n        jsonfile = os.path.join(journal, fn)\n        with open(jsonfile, 'rt', encoding='utf-8') as file:\n            entries.extend(entry for entry in json.load(file) if _in_window(entry, after, before, status))\n"
+    ).replace('@CMP@', cmp).replace('@TAIL@', tail)
+
+
 # Texts marked (fixed) exist only once pending_fixes/C18-1.diff and C18-2.diff are applied; on the unrepaired tree those
 # variants are skipped (anchor text absent).
 VARIANTS = [
@@ -2528,6 +2707,15 @@ VARIANTS = [
     V('upper test dropped', 'B', _CH, '_load', 'after < completed < before', 'after < completed', 'R-C18-4'),
     V('outcome test dropped', 'B', _CH, '_load', "and entry['status'] == status", '', 'R-C18-4'),
     V('time check skipped on some walked days', 'B', _CH, '_load', "if after < completed < before and entry['status'] == status:", "if (journal.endswith('01') or after < completed < before) and entry['status'] == status:", 'R-C18-4'),
+    # the entry loop as a generator expression whose filter lives in a predicate helper with an early return
+    V('filter in a predicate helper with a guard, entries collected by extend(<generator>)', 'N', _CH, None, _LOAD_LOOP, _load_with_helper('after < completed < before', "return entry['status'] == status"), None),
+    V('predicate helper keeps the lower bound itself', 'B', _CH, None, _LOAD_LOOP, _load_with_helper('after <= completed < before', "return entry['status'] == status"), 'R-C18-4'),
+    V('predicate helper accepts any outcome', 'B', _CH, None, _LOAD_LOOP, _load_with_helper('after < completed < before', "return True"), 'R-C18-4'),
+    V('predicate helper guard inverted', 'B', _CH, None, _LOAD_LOOP, _load_with_helper('not after < completed < before', "return entry['status'] == status"), 'R-C18-4'),
+    V('predicate helper compares the outcome with the other word', 'B', _CH, None, _LOAD_LOOP, _load_with_helper('after < completed < before', "return entry['status'] == ('failure' if status == 'success' else 'success')"), 'R-C18-3'),
+    V('entries collected by extend(<generator>) with the inline filter', 'N', _CH, '_load', "            for entry in json.load(file):\n                completed = datetime.fromisoformat(entry['timing']['completed'])\n                if after < completed < before and entry['status'] == status:\n                    entries.append(entry)\n", "            entries.extend(entry for entry in json.load(file) if after < datetime.fromisoformat(entry['timing']['completed']) < before and entry['status'] == status)\n", None),
+    V('extend(<generator>) without any filter', 'B', _CH, '_load', "            for entry in json.load(file):\n                completed = datetime.fromisoformat(entry['timing']['completed'])\n                if after < completed < before and entry['status'] == status:\n                    entries.append(entry)\n", "            entries.extend(entry for entry in json.load(file))\n", 'R-C18-4'),
+    V('extend(<generator>) filtered by the outcome only', 'B', _CH, '_load', "            for entry in json.load(file):\n                completed = datetime.fromisoformat(entry['timing']['completed'])\n                if after < completed < before and entry['status'] == status:\n                    entries.append(entry)\n", "            entries.extend(entry for entry in json.load(file) if entry['status'] == status)\n", 'R-C18-4'),
     # R-C18-5
     V('after dropped again (fixed)', 'B', _API, 'failed', 'after=after, before=before', 'before=before', 'R-C18-5'),
     V('limit parsed but not passed', 'B', _API, 'succeeded', 'limit=limit, ', '', 'R-C18-5'),
